@@ -201,7 +201,7 @@ def run(R, tier):
                           '0/1/5/-2/TRUE/FALSE/text/"#N/A"/2.5/blank, small literals, failing 1/0; all truth assignments arise from the cell pool; '
                           'non-trivial = nest depth >= 2 or a failing leaf; distinct by formula text')
     C.proof_obligations(R, 'theories/Props/C13.v', 'Props.C13', TARGETS)
-    if any('build failed' in b for b in R.broken):
+    if any('Coq build failed' in b for b in R.broken):
         return
     n = 500 if tier == 'quick' else 5000
     recipes = corpus()
